@@ -26,6 +26,9 @@ LEVEL = 'other'
 def run(chk, tier):
     prog = program(crates=('core',))
     chk.explanation = __doc__
+    # the checksum the probe is sent with is the single, last write of udp_ipv4_checksum over the datagram (C11.R3, imported): what R5 recomputes
+    from ..report import run_sub
+    run_sub(chk, 'c11', 'C11.', {'R3'})
     for r, d, fl in (('R1', 'checksums are Some exactly for (Udp, Dublin, V4); name-preserving hand-off', 72), ('R2', 'last_nat_status written only under (Some, Some) in the Complete arm', 2),
                      ('R3', 'nat_status truth table', 4), ('R4', 'prev_hop_checksum carry-forward', 2), ('R5', 'inputs of the expected / actual checksum', 3)):
         chk.rule(r, d, floor=fl)
